@@ -231,6 +231,9 @@ def run_case(case, rec, mon=None):
                 if n > 4:
                     x[2], x[3], x[4] = 0, hi, int(round(coeff * hi))  # ... and the maximum, reached exactly as well
                 rec.count("integer_signals_starting_on_the_type_minimum")
+            if j % 6 == 2 and x.dtype.itemsize > 1:
+                x = x.astype(x.dtype.newbyteorder())  # samples stored in the other byte order (big-endian PCM, say): that is the input's dtype
+                rec.count("signals_in_the_other_byte_order")
             mode = int(rng.integers(4))
             p = P.Preemphasize(coeff)
             if j % 5 == 0:
@@ -294,6 +297,9 @@ def run_case(case, rec, mon=None):
                 x[int(rng.integers(n))] = np.iinfo(dtype).min  # (coeff 0 is the identity on every representable sample)
                 x[int(rng.integers(n))] = np.iinfo(dtype).max
                 rec.count("dither_identity_on_integer_extremes")
+            if j % 6 == 4 and x.dtype.itemsize > 1:
+                x = x.astype(x.dtype.newbyteorder())
+                rec.count("signals_in_the_other_byte_order")
             x.setflags(write=False)
             d = P.Dither(coeff)
             if rng.random() < 0.1:
@@ -318,6 +324,17 @@ def run_case(case, rec, mon=None):
             rec.count("dither_seed_pairs")
             if not np.array_equal(y1, y2):
                 mon.v("Dither not reproducible under np.random.seed(%d)" % s, check="dither_seed", op="dither", dtype=dtype, shape=[n], coeff=coeff)
+            if n and j % 3 == 2:
+                # in_place on a signal of any type: the same values (only a float64 signal can actually be worked on in place)
+                x6 = np.array(x)
+                np.random.seed(s)
+                try:
+                    y6 = d.apply(x6, in_place=True)
+                    rec.count("dither_in_place_on_signals_of_any_type")
+                    if y6.dtype != y1.dtype or not np.array_equal(y6, y1):
+                        mon.v("Dither in_place=True on a %s signal differs from in_place=False under the same seed" % dtype, check="in_place_values", op="dither", dtype=dtype, shape=[n], coeff=coeff)
+                except Exception:
+                    pass  # (reported by the monitor)
             if n:
                 # the noise must not depend on the signal - not on its dtype either: the result is
                 # the float64 sum of the signal and the noise drawn for a float64 zero signal
